@@ -125,6 +125,69 @@ def fill_scenarios(rng, quick):
     return execs
 
 
+def far_boxes(w, h):
+    """boxes whose coordinates a composite request cannot carry (beyond 16 bits, near the int32 limits), empty and
+       inverted ones; as [x1, y1, x2, y2]"""
+    B = 1 << 30
+    M = (1 << 31) - 1
+    return [[-40000, -40000, 40000, 40000], [2, 1, 40000, h - 1], [-70000, 0, w - 2, 2], [1, -32769, w, 32768],
+            [0, 0, 32768, 1], [-32768, -32768, 32767, 32767], [-B - 5, -B - 5, B + 5, B + 5], [0, 0, M, M],
+            [-M, -M, 3, 2], [-M, -M, M, M], [1, 1, M, 2], [w - 1, -B, w + B, h], [40000, 0, 80000, h],
+            [-80000, -80000, -40000, -40000], [B, B, M, M],
+            [3, 1, 3, h], [1, 2, w, 2], [w, h, w, h], [5, 4, 2, 1], [40000, 0, -40000, h], [M, M, -M, -M]]
+
+
+def far_box_scenarios(rng, quick, formats):
+    """fill_boxes / fill_rectangles with boxes beyond +-32767 and beyond +-2^30, empty and inverted boxes, alone and mixed
+       with ordinary boxes in one call, for shortcut and non-shortcut operators, with and without a clip region;
+       fill_rectangles (int16 x, y; uint16 width, height) with rectangles ending beyond 32767."""
+    execs = []
+    k = 0
+    ops = [("SRC", None), ("CLEAR", None), ("OVER", 0xffff), ("OVER", 0x8000), ("ADD", None), ("IN", 0x4000), ("XOR", 0xc000),
+           ("OUT_REVERSE", 0x8000), ("DISJOINT_OVER", 0x8000), ("MULTIPLY", 0xffff)]
+    for fmt in formats:
+        for clip in (None, [[1, 0, 4, 3], [5, 1, 9, 4]], [[-50000, 1, 50000, 3]]):
+            w, h = (10, 4)
+            st = min_stride(fmt, w)
+            if BPP[fmt] == 128:
+                st = (st + 15) // 16 * 16
+            lines = ["R fb_far_%s_%d" % (fmt, k)]
+            k += 1
+            lines.append("D %s %d %d %d %d %d %d" % (fmt, w, h, st, 16 + (4 * (k % 4) if BPP[fmt] != 128 else 0), 32, rng.randrange(1 << 30)))
+            lines.append("C -1" if clip is None else "C %d %s" % (len(clip), " ".join(str(c) for b in clip for c in b)))
+            lines.append("S")
+            fars = far_boxes(w, h)
+            if quick:
+                fars = rng.sample(fars[:15], 8) + rng.sample(fars[15:], 3)
+            for i, fb in enumerate(fars):
+                for op, alpha in ([ops[i % 3], ops[3 + (i + k) % 7]] if quick else ops):
+                    col = colour(rng)
+                    col = [c or 0x4000 for c in col]
+                    if alpha is not None:
+                        col[3] = alpha
+                    n = rng.choice([1, 1, 2, 3])
+                    boxes = [fb] + [near_box(rng, w, h) if rng.random() < 0.6 else rng.choice(far_boxes(w, h)) for _ in range(n - 1)]
+                    rng.shuffle(boxes)
+                    lines.append("fillboxes %s %s %d %s" % (op, " ".join(map(str, col)), n, " ".join(str(c) for b in boxes for c in b)))
+            # fill_rectangles: x, y in int16, width, height in uint16
+            rects = [[-32768, -32768, 65535, 65535], [0, 0, 65535, 65535], [2, 1, 40000, 2], [-5, 0, 32773, h], [w - 1, 0, 65535, 1],
+                     [32767, 0, 65535, 65535], [-32768, 1, 32768, 1], [0, h - 1, 32768, 40000], [1, 1, 0, 50000], [3, 0, 60000, 0]]
+            for i, rc in enumerate(rects if not quick else rng.sample(rects, 6)):
+                for op, alpha in ([ops[i % 3], ops[3 + (i + k) % 7]] if quick else ops):
+                    col = [c or 0x4000 for c in colour(rng)]
+                    if alpha is not None:
+                        col[3] = alpha
+                    n = rng.choice([1, 2])
+                    rs = [rc]
+                    if n == 2:
+                        b = near_box(rng, w, h)
+                        rs.append([b[0], b[1], max(0, b[2] - b[0]), max(0, b[3] - b[1])])
+                        rng.shuffle(rs)
+                    lines.append("fillrects %s %s %d %s" % (op, " ".join(map(str, col)), n, " ".join(str(c) for r in rs for c in r)))
+            execs.append(lines)
+    return execs
+
+
 def fill_structure_scenarios(rng, quick):
     """pixman_fill / pixman_blt along the structure of the fill code: for every depth x stride (1..3 words and a large
        one) x x in {0, 1, word boundary -1/0/+1} x width {ending at each of the last 10 positions of the scanline, the
@@ -270,8 +333,8 @@ def fillboxes_scenarios(rng, quick, formats, nper):
                     vals = []
                     for _ in range(n):
                         vals += near_box(rng, w, h)
-                    # boxes far outside: only where the direct-fill shortcut cannot be taken (see DESIGN 6 #5)
-                    if n and (fmt not in DIRECT or (op not in ("SRC", "CLEAR", "OVER"))) and rng.random() < 0.3:
+                    # boxes far outside / beyond what a composite request can carry
+                    if n and rng.random() < 0.3:
                         vals[0:4] = rng.choice([[-100000, -5, 100000, 2], [1000, 1000, 2000, 2000],
                                                 [-(1 << 30), -(1 << 30), (1 << 30), (1 << 30)], [w - 1, -70000, w + 70000, 1]])
                     lines.append("fillboxes %s %s %d %s" % (op, " ".join(map(str, col)), n, " ".join(map(str, vals))))
@@ -1093,6 +1156,10 @@ def run(prop, args):
                                                         ["a8r8g8b8", "x8r8g8b8", "b8g8r8a8", "r5g6b5", "a8", "a1", "r8g8b8", "a4"]))
         chk.extra["directed_alpha_matrix_executions"] = len(am)
         execs += am
+        fb = far_box_scenarios(rng, quick, [DIRECT[(args.seed + 5) % len(DIRECT)], rng.choice(["r8g8b8", "a4", "a2r10g10b10"])] if quick
+                               else DIRECT + ["r8g8b8", "a4", "a2r10g10b10", "rgba_float"])
+        chk.extra["far_box_executions"] = len(fb)
+        execs += fb
         # structural sweep of fill / blt (depth x stride x x x width x height x stride sign): under every chain that has
         # a fill (each implementation has its own head / tail steps); a quarter of it where nothing is implemented
         fs = fill_structure_scenarios(rng, quick)
